@@ -640,6 +640,17 @@ Qed.
 Lemma reach_inv l s : runF init l = Some s -> Inv period lag s.
 Proof. apply run_with_inv, inv_init. Qed.
 
+End Steps.
+
+Section Timeouts.
+Variables period lag : Z.
+Hypothesis Hper : 0 <= period.
+Hypothesis Hlag : 0 <= lag.
+Notation tstepF := (tstep true period).
+Notation stepF := (step true period lag).
+Notation runF := (run true period lag).
+Ltac sg := cbn [cur cend start running mu now gs ths set_cur set_cend set_start set_running set_mu set_now unlock dur_since].
+
 (* ---------- no early timeout ---------- *)
 Lemma kd_plain d : 0 <= d -> d + period <= max_dur -> kd period d = ticks (d + period).
 Proof. intros. unfold kd. rewrite wrap64_id; auto. lia. Qed.
@@ -790,4 +801,4 @@ Proof.
   - eapply cover_run; eauto. unfold cover. rewrite Hi. exact I.
 Qed.
 
-End Steps.
+End Timeouts.
